@@ -1,5 +1,6 @@
 mod common;
 mod p_edit;
+mod p_multigen;
 mod p_pipe;
 
 use common::*;
@@ -18,6 +19,7 @@ fn component(name: &str) -> (ExecFn, GenFn) {
     match name {
         "edit" => (p_edit::exec, p_edit::gen),
         "pipe" => (p_pipe::exec, p_pipe::gen),
+        "multigen" => (p_multigen::exec, p_multigen::gen),
         "buffered" => (p_pipe::exec_buffered, p_pipe::gen_buffered),
         _ => {
             eprintln!("unknown component {name}");
